@@ -337,3 +337,62 @@ SUBS = [
         shards=(1, 1))
     for cls in tc.CLASSES
 ]
+
+
+# ------------------------------------------------ Logit far from the origin
+# When |lower| is more than ~1e7 times the interval width, x - lower is too
+# coarse for finite differences (the generated cases skip that region).  The
+# interval [lower, upper] is still well defined - upper is the float
+# lower + exp(logdelta) - and for floats inside it x - lower and upper - lower
+# are exact, so forward(x) = logit(v), v = (x - lower)/(upper - lower), has the
+# closed-form derivative 1/((upper - lower) v (1 - v)).  Both are compared:
+# forward with the closed form, the Jacobian with its derivative.
+def logit_far_enum(tier):
+    lowers = [1e9, -1e13, 3e11, 1e6, 2.0**40 + 1. / 3, -7e15, 1e3, 0.]
+    lds = [-10., -5.5, -1., 0., 2., 0.1, 5.]
+    for lo in lowers:
+        for ld in lds:
+            yield {"lower": lo, "logdelta": ld}
+
+
+def logit_far_oracle(case):
+    lo, ld = case["lower"], case["logdelta"]
+    t = T.Logit()
+    t.lower = lo
+    t.logdelta = ld
+    # (values as the transform holds them, should it clip them)
+    lo, ld = float(t.lower), float(t.logdelta)
+    up = lo + math.exp(ld)
+    w = up - lo
+    if not w > 0:
+        raise Skip()
+    xs = np.unique(lo + w * np.array([0.05, 0.1, 0.2, 0.35, 0.5, 0.65, 0.8,
+                                      0.9, 0.95]))
+    xs = xs[(xs > lo) & (xs < up)]
+    v = (xs - lo) / w
+    ok = (v > 1e-3) & (v < 1 - 1e-3) & (xs - lo > 1e-9) & (up - xs > 1e-9)
+    if not ok.any():
+        return {"nt": False, "labels": ["no-interior-float"]}
+    xs, v = xs[ok], v[ok]
+    f = np.asarray(t.forward(xs.copy()), dtype=np.float64)
+    j = np.asarray(t.jacobian(xs.copy()), dtype=np.float64)
+    fref = np.log(v / (1 - v))
+    jref = 1. / (w * v * (1 - v))
+    if not np.all(np.abs(f - fref) <= 1e-9 * (1 + np.abs(fref))):
+        i = int(np.argmax(np.abs(f - fref)))
+        raise Violation(f"Logit(lower={lo!r}, logdelta={ld!r}).forward("
+                        f"{xs[i]!r}) = {f[i]!r}, logit of the position in "
+                        f"[lower, upper] = {fref[i]!r}")
+    if not np.all(np.abs(j - jref) <= 1e-9 * jref):
+        i = int(np.argmax(np.abs(j - jref) / jref))
+        raise Violation(
+            f"Logit(lower={lo!r}, logdelta={ld!r}).jacobian({xs[i]!r}) = "
+            f"{j[i]!r}; forward is the logit of v = (x - lower)/(upper - "
+            f"lower) = {v[i]!r} (checked), whose derivative is {jref[i]!r} "
+            f"(rel.err {abs(j[i] - jref[i]) / jref[i]:.2e})")
+    far = abs(lo) > 1e7 * w
+    return {"nt": True, "labels": ["offset:" + ("far" if far else "near")]}
+
+
+SUBS.append(Sub("C02.logit-far-from-origin", logit_far_oracle,
+                enumerate=logit_far_enum, shards=(4, 4)))
